@@ -236,6 +236,50 @@ func (c *Ctx) RuleRxDisjoint(allPairs bool) *Result {
 			}
 		}
 	}
+	// the disjointness argument is about trimmed lines: the function that classifies by the
+	// pattern map must be handed the line with its indentation removed
+	for _, fn := range c.P.RepoFns {
+		usesMapPattern := false
+		var subject ssa.Value
+		allInstrs(fn, func(in ssa.Instruction) {
+			if _, m, recv, subj, ok := regexpCall(in); ok && regexpMatchMethods[m] {
+				if ex, isEx := recv.(*ssa.Extract); isEx && ex.Index == 2 {
+					if nx, isNx := ex.Tuple.(*ssa.Next); isNx {
+						if rg, isRg := nx.Iter.(*ssa.Range); isRg && isPatternMapType(rg.X.Type()) {
+							usesMapPattern, subject = true, stripConv(subj)
+						}
+					}
+				}
+			}
+		})
+		if !usesMapPattern {
+			continue
+		}
+		pi := paramIndex(fn, subject)
+		if pi < 0 {
+			continue
+		}
+		for _, e := range c.Graph().In[fn] {
+			cc := callCommon(e.Site)
+			if cc == nil || staticFn(cc) != fn || pi >= len(cc.Args) {
+				continue
+			}
+			res.Instances++
+			key := load.FnName(e.Caller) + ":line handed to " + load.FnName(fn)
+			trimmed := false
+			if tc, ok := stripConv(cc.Args[pi]).(*ssa.Call); ok {
+				f := staticCallee(&tc.Call)
+				if isFn(f, "strings", "TrimLeft") || isFn(f, "strings", "TrimSpace") || isFn(f, "strings", "TrimLeftFunc") {
+					trimmed = true
+				}
+			}
+			if trimmed {
+				res.ok(key, c.P.InstrPos(e.Site), "the line is classified after its indentation was removed (the domain of the disjointness proof)")
+			} else {
+				res.bad(key, c.P.InstrPos(e.Site), "the line is classified with its indentation: every directive pattern except the comment pattern is anchored at the first column, so an indented directive is no longer recognised (or is taken for another kind of line)")
+			}
+		}
+	}
 	if allPairs {
 		// thorough tier: the full pairwise product of every pattern constant of the
 		// repository's definitions package, as a summary (no verdict: patterns that
@@ -391,11 +435,11 @@ func (c *Ctx) RuleRxGrammar() *Result {
 
 // submatchUse is one constant-index access of a Find*Submatch* result.
 type submatchUse struct {
-	at     ssa.Instruction
-	group  int // capture group index
-	guard  bool
-	inFn   *ssa.Function
-	val    ssa.Value // the element value (loaded)
+	at    ssa.Instruction
+	group int // capture group index
+	guard bool
+	inFn  *ssa.Function
+	val   ssa.Value // the element value (loaded)
 }
 
 // submatchSite is one Find*Submatch* call with its uses.
@@ -804,10 +848,11 @@ func looseText(re *syntax.Regexp, emitted map[int]bool, lits *[]string, classes 
 
 // builderInfo describes how elements of a submatch result flow into built strings.
 type builderInfo struct {
-	groups    map[int]bool
-	constants []string
-	dynamic   bool  // some operand is neither a group nor a constant
-	orders    [][]int // group order per builder expression
+	groups      map[int]bool
+	constants   []string
+	dynamic     bool // some operand is neither a group nor a constant
+	transformed []string
+	orders      [][]int // group order per builder expression
 }
 
 // stringOperands flattens a string-building expression into ordered operands.
@@ -971,6 +1016,15 @@ func (c *Ctx) RuleRxRebuild() *Result {
 				if isBuilderOf(op, roots) {
 					continue
 				}
+				// a group that goes through a function before it is re-emitted is not re-emitted verbatim
+				if tc, isCall := op.(*ssa.Call); isCall {
+					for _, a := range tc.Call.Args {
+						if g, ok := elem[stripConv(a)]; ok {
+							info.transformed = append(info.transformed, fmt.Sprintf("group %d passes through %s", g, calleeLabel(&tc.Call)))
+							info.groups[g] = true
+						}
+					}
+				}
 				info.dynamic = true
 			}
 			info.orders = append(info.orders, order)
@@ -1048,6 +1102,9 @@ func (c *Ctx) RuleRxRebuild() *Result {
 		}
 		for _, cl := range classes {
 			problems = append(problems, fmt.Sprintf("%s outside every re-emitted group matches non-blank text that is not rebuilt", cl))
+		}
+		for _, t := range info.transformed {
+			problems = append(problems, t+" before it is put back into the line: the text of the line changes (only white space outside the groups may)")
 		}
 		for _, o := range info.orders {
 			for i := 1; i < len(o); i++ {
